@@ -117,7 +117,7 @@ pub fn check_acks(spec: &Spec, out: &RunOut, stats: &mut AckStats) -> Vec<Violat
     let mut disk = Disk::default();
     let mut seen: BTreeSet<u32> = BTreeSet::new();
     let mut last_fid = 0u32;
-    let fault_free = spec.faults.is_empty();
+    let fault_free = !spec.has_real_faults();
     let mut prev_ack_pos: Option<usize> = None;
     let mut writes_since_prev_ack = 0u32;
     let orphans = orphan_files(&out.ep.trace);
@@ -464,7 +464,7 @@ pub fn check_unlinks(spec: &Spec, out: &RunOut, stats: &mut UnlinkStats) -> Vec<
         disk.apply(f);
     }
     // bounded liveness at quiescent points (fault-free): chunks the purge made obsolete are gone
-    if spec.faults.is_empty() && out.caller_errors == 0 && out.aborted.is_none() {
+    if !spec.has_real_faults() && out.caller_errors == 0 && out.aborted.is_none() {
         // closing `last` of chunk i = `last` in the head State of chunk i+1
         let mut closing_last: BTreeMap<u64, Option<LogId>> = BTreeMap::new();
         for w in hist.windows(2) {
